@@ -1,0 +1,47 @@
+//go:build verif
+
+// Contracts for the govc verifier (/verif). Comment-only: with the "verif" tag off this file is
+// not part of any build; with it on it adds nothing but the package clause.
+package meta
+
+// designates(g,t): group g is the one the metadata designates for timestamp t (C08): it contains t,
+// is not deleted, and is not truncated at or before t.
+//@ pure designates(g, t) = !t.Before(g.StartTime) && t.Before(g.EndTime) && g.DeletedAt.IsZero() && (g.TruncatedAt.IsZero() || t.Before(g.TruncatedAt))
+// expired(g,d,t): group g of a policy with duration d is expired at time t (C17).
+//@ pure expired(g, d, t) = g.DeletedAt.IsZero() && d != 0 && g.EndTime.Add(d).Before(t)
+
+//@ func (*RetentionPolicyInfo).ShardGroupByTimestamp
+//@   props C08
+//@   loop 1 invariant none_so_far: all(k, 0, rangeindex+1, !designates(rpi.ShardGroups[k], timestamp))
+//@   ensures sound: result != nil ==> is_elem_of(result, rpi.ShardGroups) && designates(result, timestamp)
+//@   ensures complete: result == nil ==> all(k, 0, len(rpi.ShardGroups), !designates(rpi.ShardGroups[k], timestamp))
+//@   modifies nothing
+
+//@ func (*RetentionPolicyInfo).ExpiredShardGroups
+//@   props C17
+//@   requires duration_wf: rpi.Duration >= 0
+//@   loop 1 invariant sound: all(k, 0, len(groups), is_elem_of(groups[k], rpi.ShardGroups) && expired(groups[k], rpi.Duration, t))
+//@   loop 1 invariant own_storage: fresh(groups)
+//@   ghost w map
+//@   at before append#1: ghost w[i] = len(groups)
+//@   loop 1 invariant complete: all(j, 0, rangeindex+1, expired(rpi.ShardGroups[j], rpi.Duration, t) ==> 0 <= w[j] && w[j] < len(groups) && groups[w[j]] == &rpi.ShardGroups[j])
+//@   ensures only_expired: all(k, 0, len(result), is_elem_of(result[k], rpi.ShardGroups) && expired(result[k], rpi.Duration, t))
+//@   ensures all_expired: all(i, 0, len(rpi.ShardGroups), expired(rpi.ShardGroups[i], rpi.Duration, t) ==> ex(k, 0, len(result), result[k] == &rpi.ShardGroups[i]))
+//@   ensures infinite_never_expires: rpi.Duration == 0 ==> len(result) == 0
+//@   modifies nothing
+
+//@ func (*RetentionPolicyInfo).DeletedShardGroups
+//@   props C17
+//@   loop 1 invariant sound: all(k, 0, len(groups), is_elem_of(groups[k], rpi.ShardGroups) && !groups[k].DeletedAt.IsZero())
+//@   loop 1 invariant own_storage: fresh(groups)
+//@   ghost w map
+//@   at before append#1: ghost w[i] = len(groups)
+//@   loop 1 invariant complete: all(j, 0, rangeindex+1, !rpi.ShardGroups[j].DeletedAt.IsZero() ==> 0 <= w[j] && w[j] < len(groups) && groups[w[j]] == &rpi.ShardGroups[j])
+//@   ensures only_deleted: all(k, 0, len(result), is_elem_of(result[k], rpi.ShardGroups) && !result[k].DeletedAt.IsZero())
+//@   ensures all_deleted: all(i, 0, len(rpi.ShardGroups), !rpi.ShardGroups[i].DeletedAt.IsZero() ==> ex(k, 0, len(result), result[k] == &rpi.ShardGroups[i]))
+//@   modifies nothing
+
+//@ func (*UserInfo).AuthorizeDatabase
+//@   props C16
+//@   ensures exact: result == (ui.Admin || privilege == influxql.NoPrivileges || (has(ui.Privileges, database) && (ui.Privileges[database] == privilege || ui.Privileges[database] == influxql.AllPrivileges)))
+//@   modifies nothing
